@@ -1,4 +1,282 @@
-import ChemModel.Model.EqSolve
+/-
+C08 — reported equilibrium compositions are genuine whenever the solver claims success   (PARTIAL)
+
+Property text: "Whenever an equilibrium calculation reports success and a sane result, the returned concentrations are
+non-negative, carry exactly the elements and charge of the initial state, and satisfy Q = K for every homogeneous
+equilibrium; for a sparingly soluble phase either the solid is present and its solubility product is met or it is absent
+and the ion product does not exceed it.  On well-conditioned homogeneous systems … the default solver chain does report
+success (≥ 19 of 20), and single-equilibrium problems agree with the bracketing scalar solver."
+
+What a theorem can reach here is the logic chempy itself contributes (model: `ChemModel/Model/EqSolve.lean`, tied to the
+source by the exact correspondence ops of `tools/harness/c08.py`):
+the sanity check, the elemental upper bounds it uses, `dissolved`, the two precipitation switch callbacks,
+`non_precip_rids`, and bracket + residual of the scalar solver.   NOT provable (runtime behaviour of pyneqsys / scipy, sampled
+by the harness): that a run converges, what `sol['success']` means, the ≥ 19/20 rate, agreement with `brentq`.
+The full-strength statement that stays open is therefore
+
+    ∀ system, init, chain:  root(init) = (x, sol, sane) ∧ sol.success ∧ sane  →  genuine x        -- `success_implies_genuine`
+
+of which the theorems below prove the `sane` half (`sane_spec`: non-negative and within the elemental bounds), the
+consistency of that check with genuineness (`upper_bound_valid`, `genuine_state_is_sane`) and the correctness of every
+piece of chempy's own switching / bracketing logic.  "Residual zero ⇒ Q = K ∧ totals preserved" for the vector
+formulations is C07 (`Model/EqSys.lean`).
+
+All theorems hold over an arbitrary linearly ordered field `α` (ℚ for the executable model, ℝ for "real" concentrations).
+-/
+import ChemModel.Proofs.EqSolve
+
 namespace ChemModel.C08
-theorem placeholder : True := trivial
+open ChemModel.EqSolve
+
+variable {α : Type} [Field α] [LinearOrder α] [IsStrictOrderedRing α]
+
+/-- **sane_spec.** `_result_is_sane(init, x, rtol)` returns `True` exactly when the elemental bounds can be computed, `x` has one
+    entry per substance, every entry is `≥ 0` (no tolerance: a negative entry, however tiny, is insane) and every entry is
+    `≤ bound·(1+rtol)` (an unbounded substance — one without non-charge components — is never "too much"). -/
+theorem sane_spec (rtol : α) (comps : List (Comp α)) (init x : List α) :
+    resultIsSane rtol comps init x = .ok true ↔
+      ∃ ub, upperConcBounds comps init = .ok ub ∧ x.length = ub.length ∧
+        (∀ i (hi : i < x.length), 0 ≤ x[i]) ∧
+        (∀ i (hi : i < x.length) (b : α), ub[i]? = some (some b) → x[i] ≤ b * (1 + rtol)) :=
+  resultIsSane_eq_ok_true_iff rtol comps init x
+
+/-- a strictly negative concentration — of any size — is never reported as sane -/
+theorem sane_rejects_any_negative (rtol : α) (comps : List (Comp α)) (init x : List α)
+    (i : Nat) (hi : i < x.length) (hneg : x[i] < 0) : resultIsSane rtol comps init x ≠ .ok true := by
+  intro h
+  obtain ⟨_, _, _, hnn, _⟩ := (sane_spec rtol comps init x).mp h
+  exact absurd (hnn i hi) (not_le.mpr hneg)
+
+/-- an entry above `bound·(1+rtol)` is never reported as sane -/
+theorem sane_rejects_excess (rtol : α) (comps : List (Comp α)) (init x : List α) (ub : List (Option α))
+    (hub : upperConcBounds comps init = .ok ub)
+    (i : Nat) (hi : i < x.length) (b : α) (hb : ub[i]? = some (some b)) (hex : b * (1 + rtol) < x[i]) :
+    resultIsSane rtol comps init x ≠ .ok true := by
+  intro h
+  obtain ⟨ub', hub', _, _, hle⟩ := (sane_spec rtol comps init x).mp h
+  rw [hub] at hub'
+  cases hub'
+  exact absurd (hle i hi b hb) (not_le.mpr hex)
+
+/-- the default tolerances in the source: `_result_is_sane(..., rtol=1e-9)`, `_fw_cond_factory(ri, rtol=1e-14)` -/
+theorem default_rtols : (saneRtolDefault : ℚ) = 1 / 10 ^ 9 ∧ (fwRtolDefault : ℚ) = 1 / 10 ^ 14 := by
+  constructor <;> decide +kernel
+
+/-- **upper_bound_valid.** The bound of `upper_conc_bounds` is a genuine bound: with non-negative composition coefficients
+    (charge excluded) and strictly positive ones for substance `i`, no non-negative state `y` that carries the same
+    element totals as `init` has more of substance `i` than `ub i`. -/
+theorem upper_bound_valid (comps : List (Comp α)) (init y : List α) (ub : List (Option α))
+    (hub : upperConcBounds comps init = .ok ub) (hylen : y.length = comps.length)
+    (hy : ∀ v ∈ y, 0 ≤ v) (hc : ∀ comp ∈ comps, ∀ p ∈ comp, p.1 ≠ 0 → 0 ≤ p.2)
+    (htot : ∀ k, k ≠ 0 → compositionConc comps y k = compositionConc comps init k)
+    (i : Nat) (hi : i < comps.length) (b : α) (hb : ub[i]? = some (some b))
+    (hpos : ∀ p ∈ comps[i], p.1 ≠ 0 → 0 < p.2) :
+    y[i]'(hylen ▸ hi) ≤ b :=
+  upperConcBounds_valid comps init y ub hub hylen hy hc htot i hi b hb hpos
+
+/-- **the sanity check never rejects a genuine composition** (exact arithmetic): a non-negative state with the element totals
+    of the initial state passes `_result_is_sane` for every `rtol ≥ 0`. -/
+theorem genuine_state_is_sane (rtol : α) (hr : 0 ≤ rtol) (comps : List (Comp α)) (init y : List α) (ub : List (Option α))
+    (hub : upperConcBounds comps init = .ok ub) (hylen : y.length = comps.length)
+    (hy : ∀ v ∈ y, 0 ≤ v) (hc : ∀ comp ∈ comps, ∀ p ∈ comp, p.1 ≠ 0 → 0 < p.2)
+    (htot : ∀ k, k ≠ 0 → compositionConc comps y k = compositionConc comps init k) :
+    resultIsSane rtol comps init y = .ok true := by
+  rw [sane_spec]
+  have hul : ub.length = comps.length := by
+    unfold upperConcBounds at hub
+    split_ifs at hub
+    exact (mapM_ok _ _ hub).length_eq.symm
+  refine ⟨ub, hub, by omega, fun i hi => hy _ (List.getElem_mem _), fun i hi b hb => ?_⟩
+  have hic : i < comps.length := by omega
+  have hle := upper_bound_valid comps init y ub hub hylen hy (fun comp hcomp p hp hk => (hc comp hcomp p hp hk).le) htot i hic b hb
+    (fun p hp hk => hc _ (List.getElem_mem _) p hp hk)
+  have h0 : 0 ≤ y[i] := hy _ (List.getElem_mem _)
+  nlinarith
+
+/-- **dissolved_spec.** `dissolved(c)` (i) keeps the length, (ii) conserves every linear invariant `b·c` that each
+    phase-transfer reaction conserves (`b·ν = 0` — for a balanced system: every element total and the charge), and
+    (iii) leaves nothing of the (single) solid of any phase-transfer reaction. -/
+theorem dissolved_spec (phases : List Nat) (rxns : List Rxn) (c c' : List α) (h : dissolved phases rxns c = .ok c') :
+    c'.length = c.length ∧
+    (∀ b : List α, (∀ r ∈ rxns, hasPrecipitates phases r = .ok true →
+        dot b ((netStoich phases.length r).map fun n => ((n : Int) : α)) = 0) → dot b c' = dot b c) ∧
+    (∀ r ∈ rxns, hasPrecipitates phases r = .ok true → ∀ net s idx, precipitateStoich phases r = .ok (net, s, idx) →
+        c'[idx.toNat]? = some 0) :=
+  ⟨dissolved_length phases rxns c c' h, fun b hb => dissolved_dot phases b rxns c c' h hb,
+   dissolved_zeroes phases rxns c c' h⟩
+
+/-- what `precipitate_stoich` hands to the callbacks: the coefficient `s ≠ 0` belongs to the unique substance `idx` of a
+    non-zero phase taking part (net) in the reaction -/
+theorem precipitate_stoich_spec (phases : List Nat) (r : Rxn) (net : List Int) (s idx : Int)
+    (h : precipitateStoich phases r = .ok (net, s, idx)) (hs : s ≠ 0) :
+    0 ≤ idx ∧ ∃ hk : idx.toNat < phases.length, phases[idx.toNat] > 0 ∧ r.net idx.toNat = s ∧
+      ∀ j (hj : j < phases.length), j ≠ idx.toNat → phases[j] > 0 → r.net j = 0 :=
+  (precipitateStoich_spec phases r net s idx h).2 hs
+
+/-- **switch_conditions_spec (forward).** `fw_cond(x)` looks at the fully dissolved state `d = dissolved(x)` and at
+    `q = ∏ dᵢ^νᵢ` over the species of phase 0 (the ion quotient):
+    solid on the product side (`s > 0`, `K = 1/Ksp`): "solid present" ⇔ `q·(1+rtol) < K`;
+    solid on the reactant side (`s < 0`, `K = Ksp`):  "solid present" ⇔ `K·(1+rtol) < q`.
+    In both readings: the solid is switched on exactly when the fully dissolved solution would be super-saturated by more
+    than `rtol`. -/
+theorem switch_conditions_spec (rtol : α) (phases : List Nat) (rxns : List Rxn) (r : Rxn) (k : α) (x : List α) (b : Bool)
+    (h : fwCond rtol phases rxns r k x = .ok b) :
+    ∃ net s idx d q, precipitateStoich phases r = .ok (net, s, idx) ∧ dissolved phases rxns x = .ok d ∧
+      rxnQ phases r d = .ok q ∧ q = quotient d (nonPrecipitateStoich phases r) ∧
+      ((0 < s ∧ (b = true ↔ q * (1 + rtol) < k)) ∨ (s < 0 ∧ (b = true ↔ k * (1 + rtol) < q))) := by
+  obtain ⟨net, s, idx, d, q, h1, h2, h3, h4⟩ := fwCond_spec rtol phases rxns r k x b h
+  exact ⟨net, s, idx, d, q, h1, h2, h3, eqQuotient_ok _ _ _ h3, h4⟩
+
+/-- **switch_conditions_spec (backward).** Once on, the solid stays on exactly while its amount is `≥ small`. -/
+theorem backward_condition_spec (small : α) (phases : List Nat) (r : Rxn) (x : List α) (b : Bool)
+    (h : bwCond small phases r x = .ok b) :
+    ∃ net s idx xi, precipitateStoich phases r = .ok (net, s, idx) ∧ pyIndex x idx = some xi ∧
+      (b = true ↔ small ≤ xi) :=
+  bwCond_spec small phases r x b h
+
+/-- `non_precip_rids(precipitates)`: the phase-transfer reactions whose flag (by position) is `False` -/
+theorem non_precip_rids_spec (phases : List Nat) (rxns : List Rxn) (precipitates : List Bool) (out : List Nat)
+    (h : nonPrecipRids phases rxns precipitates = .ok out) :
+    ∃ pt, phaseTransferIdxs phases rxns = .ok pt ∧
+      ∀ i, i ∈ out ↔ ∃ j : Nat, pt[j]? = some i ∧ precipitates[j]? = some false := by
+  unfold nonPrecipRids at h
+  simp only [bind, Except.bind] at h
+  split at h
+  · cases h
+  · rename_i pt hpt
+    simp only [pure, Except.pure, Except.ok.injEq] at h
+    subst h
+    exact ⟨pt, hpt, fun i => mem_zipNotPrecip pt precipitates i⟩
+
+/-- **rc_interval_keeps_nonneg.** For strictly positive concentrations every reaction coordinate inside the bracket returned by
+    `_get_rc_interval` keeps every concentration `c0ᵢ + νᵢ·rc` non-negative. -/
+theorem rc_interval_keeps_nonneg (stoich : List Int) (c0 : List α) (lo up : α)
+    (h : getRcInterval stoich c0 = .ok (lo, up)) (hpos : ∀ v ∈ c0, 0 < v)
+    (rc : α) (hlo : lo ≤ rc) (hup : rc ≤ up) (j : Nat) (hj : j < stoich.length) (hjc : j < c0.length) :
+    0 ≤ c0[j] + ((stoich[j] : Int) : α) * rc := by
+  obtain ⟨hlen, hnz, _, _, _, hU, hL, _, _⟩ := getRcInterval_spec stoich c0 lo up h
+  have hc : 0 < c0[j] := hpos _ (List.getElem_mem _)
+  have hs : ((stoich[j] : Int) : α) ≠ 0 := by exact_mod_cast hnz j hj
+  rcases lt_or_gt_of_ne hs with hneg | hposs
+  · have hlim : c0[j] / ((stoich[j] : Int) : α) < 0 := div_neg_of_pos_of_neg hc hneg
+    have h1 := hU j hj hlim
+    have h2 : rc ≤ -(c0[j] / ((stoich[j] : Int) : α)) := le_trans hup h1
+    have h3 : ((stoich[j] : Int) : α) * -(c0[j] / ((stoich[j] : Int) : α)) ≤ ((stoich[j] : Int) : α) * rc :=
+      mul_le_mul_of_nonpos_left h2 hneg.le
+    have h4 : ((stoich[j] : Int) : α) * -(c0[j] / ((stoich[j] : Int) : α)) = -c0[j] := by field_simp
+    linarith
+  · have hlim : 0 < c0[j] / ((stoich[j] : Int) : α) := div_pos hc hposs
+    have h1 := hL j hj hlim
+    have h2 : -(c0[j] / ((stoich[j] : Int) : α)) ≤ rc := le_trans h1 hlo
+    have h3 : ((stoich[j] : Int) : α) * -(c0[j] / ((stoich[j] : Int) : α)) ≤ ((stoich[j] : Int) : α) * rc :=
+      mul_le_mul_of_nonneg_left h2 hposs.le
+    have h4 : ((stoich[j] : Int) : α) * -(c0[j] / ((stoich[j] : Int) : α)) = -c0[j] := by field_simp
+    linarith
+
+/-- **the bracket is the largest such interval** (strictly positive concentrations): beyond the upper end a reactant, below the
+    lower end a product becomes negative — on each side on which a species limits the coordinate at all (with no reactant the
+    code returns `upper = 0`, with no product `lower = 0`); and it always contains `rc = 0` and is not the single point `{0}`. -/
+theorem rc_interval_maximal (stoich : List Int) (c0 : List α) (lo up : α)
+    (h : getRcInterval stoich c0 = .ok (lo, up)) (hpos : ∀ v ∈ c0, 0 < v) :
+    lo ≤ 0 ∧ 0 ≤ up ∧ lo < up ∧
+    (∀ rc, up < rc → (∃ j, ∃ hj : j < stoich.length, stoich[j] < 0) →
+      ∃ j, ∃ hj : j < stoich.length, ∃ hjc : j < c0.length, c0[j] + ((stoich[j] : Int) : α) * rc < 0) ∧
+    (∀ rc, rc < lo → (∃ j, ∃ hj : j < stoich.length, 0 < stoich[j]) →
+      ∃ j, ∃ hj : j < stoich.length, ∃ hjc : j < c0.length, c0[j] + ((stoich[j] : Int) : α) * rc < 0) := by
+  obtain ⟨hlen, hnz, hlo0, hup0, hne, _, _, hUa, hLa⟩ := getRcInterval_spec stoich c0 lo up h
+  refine ⟨hlo0, hup0, ?_, ?_, ?_⟩
+  · rcases hne with h1 | h1
+    · exact lt_of_lt_of_le (lt_of_le_of_ne hlo0 h1) hup0
+    · exact lt_of_le_of_lt hlo0 (lt_of_le_of_ne hup0 (Ne.symm h1))
+  · rintro rc hrc ⟨j, hj, hsj⟩
+    have hjc : j < c0.length := hlen ▸ hj
+    have hsα : ((stoich[j] : Int) : α) < 0 := by exact_mod_cast hsj
+    obtain ⟨j', hj', hlt, hupe⟩ := hUa ⟨j, hj, div_neg_of_pos_of_neg (hpos _ (List.getElem_mem _)) hsα⟩
+    have hjc' : j' < c0.length := hlen ▸ hj'
+    have hc : 0 < c0[j'] := hpos _ (List.getElem_mem _)
+    have hs' : ((stoich[j'] : Int) : α) < 0 := by
+      by_contra hcon
+      have : 0 ≤ c0[j'] / ((stoich[j'] : Int) : α) := div_nonneg hc.le (not_lt.mp hcon)
+      exact absurd hlt (not_lt.mpr this)
+    refine ⟨j', hj', hjc', ?_⟩
+    have h3 : ((stoich[j'] : Int) : α) * rc < ((stoich[j'] : Int) : α) * up := mul_lt_mul_of_neg_left hrc hs'
+    have hne' : ((stoich[j'] : Int) : α) ≠ 0 := hs'.ne
+    have h4 : ((stoich[j'] : Int) : α) * up = -c0[j'] := by rw [hupe]; field_simp
+    linarith
+  · rintro rc hrc ⟨j, hj, hsj⟩
+    have hjc : j < c0.length := hlen ▸ hj
+    have hsα : (0 : α) < ((stoich[j] : Int) : α) := by exact_mod_cast hsj
+    obtain ⟨j', hj', hgt, hloe⟩ := hLa ⟨j, hj, div_pos (hpos _ (List.getElem_mem _)) hsα⟩
+    have hjc' : j' < c0.length := hlen ▸ hj'
+    have hc : 0 < c0[j'] := hpos _ (List.getElem_mem _)
+    have hs' : (0 : α) < ((stoich[j'] : Int) : α) := by
+      by_contra hcon
+      have : c0[j'] / ((stoich[j'] : Int) : α) ≤ 0 := div_nonpos_of_nonneg_of_nonpos hc.le (not_lt.mp hcon)
+      exact absurd hgt (not_lt.mpr this)
+    refine ⟨j', hj', hjc', ?_⟩
+    have h3 : ((stoich[j'] : Int) : α) * rc < ((stoich[j'] : Int) : α) * lo := mul_lt_mul_of_pos_left hrc hs'
+    have hne' : ((stoich[j'] : Int) : α) ≠ 0 := hs'.ne'
+    have h4 : ((stoich[j'] : Int) : α) * lo = -c0[j'] := by rw [hloe]; field_simp
+    linarith
+
+/-- **defect witness** (initial concentrations that are not strictly positive): species with `c0 = 0` are ignored when the
+    bracket is computed, so for `A ⇌ B + C + D`, `c0 = (1, 0, 0, 1/2)` the bracket is `[-1/2, 1]` although every `rc < 0` makes
+    `[B]` and `[C]` negative.  On the real code `solve_equilibrium([1, 0, 0, .5], (-1, 1, 1, 1), 0.01)` then returns
+    `[1.419, -0.419, -0.419, 0.081]` (brentq converges to a spurious root in the infeasible part). -/
+theorem rc_interval_zero_conc_defect_witness :
+    getRcInterval (α := ℚ) [-1, 1, 1, 1] [1, 0, 0, 1 / 2] = .ok (-1 / 2, 1) ∧
+    extentState (α := ℚ) [1, 0, 0, 1 / 2] [-1, 1, 1, 1] (-1 / 4) = [5 / 4, -1 / 4, -1 / 4, 1 / 4] := by
+  constructor <;> decide +kernel
+
+/-- **residual_zero_iff_Q_eq_K.** The function handed to `brentq` is `K − Q(c0 + ν·rc)` with `Q = ∏ cᵢ^νᵢ`; it vanishes exactly
+    when the state reached along the reaction coordinate satisfies `Q = K`. -/
+theorem residual_zero_iff_Q_eq_K (rc : α) (c0 : List α) (stoich : List Int) (K v : α)
+    (h : equilibriumResidual rc c0 stoich K = .ok v) :
+    v = K - quotient (extentState c0 stoich rc) stoich ∧
+    (v = 0 ↔ quotient (extentState c0 stoich rc) stoich = K) := by
+  unfold equilibriumResidual at h
+  split_ifs at h with hl
+  simp only [bind, Except.bind] at h
+  split at h
+  · cases h
+  · rename_i q hq
+    simp only [pure, Except.pure, Except.ok.injEq] at h
+    have hq' := eqQuotient_ok _ _ _ hq
+    subst hq'
+    refine ⟨h.symm, ?_⟩
+    rw [← h, sub_eq_zero]
+    exact eq_comm
+
+/-- what `solve_equilibrium` returns, `c0 + rc·ν`, carries the element totals and the charge of `c0` whenever the reaction is
+    balanced (`b·ν = 0` for the balance row `b`) — for every `rc`, converged or not. -/
+theorem extent_preserves_totals (rc : α) (b c0 : List α) (stoich : List Int) (hl : c0.length = stoich.length)
+    (hb : dot b (stoich.map fun n => ((n : Int) : α)) = 0) :
+    dot b (extentState c0 stoich rc) = dot b c0 := by
+  rw [dot_extent rc b c0 stoich hl, hb]; ring
+
+/-! ### non-vacuity: concrete instances on which the hypotheses hold -/
+
+/-- NaCl(s) ⇌ Na⁺ + Cl⁻ with (Na⁺, Cl⁻, NaCl(s)) = (1, 2, 4): everything dissolves to (5, 6, 0) (the repo's own test case) -/
+example : dissolved (α := ℚ) [0, 0, 1] [⟨[(2, 1)], [(0, 1), (1, 1)], [], []⟩] [1, 2, 4] = .ok [5, 6, 0] := by
+  decide +kernel
+
+/-- forward condition on that state with Ksp = 4: ion product 30 > 4 ⇒ solid present -/
+example : fwCond (α := ℚ) fwRtolDefault [0, 0, 1] [⟨[(2, 1)], [(0, 1), (1, 1)], [], []⟩]
+    ⟨[(2, 1)], [(0, 1), (1, 1)], [], []⟩ 4 [1, 2, 4] = .ok true := by decide +kernel
+
+/-- water / H⁺ / OH⁻: bounds (H: 2·1 + 1/2 = 5/2, O: 1) and a sane / an insane vector -/
+example : upperConcBounds (α := ℚ) [[(1, 2), (8, 1)], [(0, 1), (1, 1)], [(0, -1), (1, 1), (8, 1)]] [1, 1 / 2, 0]
+    = .ok [some 1, some (5 / 2), some 1] := by decide +kernel
+
+example : resultIsSane (α := ℚ) saneRtolDefault [[(1, 2), (8, 1)], [(0, 1), (1, 1)], [(0, -1), (1, 1), (8, 1)]]
+    [1, 1 / 2, 0] [1 / 2, 1, 1 / 2] = .ok true := by decide +kernel
+
+example : resultIsSane (α := ℚ) saneRtolDefault [[(1, 2), (8, 1)], [(0, 1), (1, 1)], [(0, -1), (1, 1), (8, 1)]]
+    [1, 1 / 2, 0] [1, 1 / 2, -1 / 10 ^ 30] = .ok false := by decide +kernel
+
+/-- HA ⇌ H⁺ + A⁻ with strictly positive concentrations: bracket and a residual that vanishes at equilibrium -/
+example : getRcInterval (α := ℚ) [-1, 1, 1] [1, 1 / 4, 1 / 2] = .ok (-1 / 4, 1) := by decide +kernel
+
+example : equilibriumResidual (α := ℚ) (1 / 4) [1, 1 / 4, 1 / 2] [-1, 1, 1] (1 / 2) = .ok 0 := by decide +kernel
+
 end ChemModel.C08
